@@ -10,7 +10,8 @@ def answer (line : String) : String :=
     | "hsm" => hsmLine toks
     | "hsmspec" => hsmSpecLine toks
     | "hsmf" => hsmfLine toks
-    | "q" => qLine toks
+    | "q" => qLineS rest
+    | "qx" => qLineX toks
     | "ld" => ldLine toks
     | "lds" => ldsLine toks
     | "fab" => fabLine toks
@@ -27,6 +28,7 @@ def answer (line : String) : String :=
     | "qspy" => qspyLine toks
     | "tocode" => tocodeLine toks
     | "single" => singleLine toks
+    | "singleinit" => singleInitLine toks
     | "reg" => regLine toks
     | "tsa" => tsaLine toks
     | "strip" => stripLine toks
